@@ -152,7 +152,7 @@ var profDiff = register(&Profile{
 	Oracles: []Oracle{{Name: "commit-necessity", After: oracleCommitNecessity}, {Name: "staged-report", After: oracleStagedReport}},
 })
 
-var diffWeights = Weights{"write-new": 20, "modify": 14, "remove-file": 8, "rmdir": 3, "recreate": 3, "add": 28, "rm": 8, "commit": 18,
+var diffWeights = Weights{"dir-at-unstaged-file": 3, "file-at-unstaged-dir": 3, "dir2file": 2, "file2dir": 2, "write-new": 20, "modify": 14, "remove-file": 8, "rmdir": 3, "recreate": 3, "add": 28, "rm": 8, "commit": 18,
 	"restore-staged": 6, "reset": 5, "switch-c": 2, "switch": 2, "copydir": 4, "revert": 5, "recreate-unstaged": 3}
 
 // ---------------------------------------------------------------- C13
@@ -323,7 +323,7 @@ var profWorktree = register(&Profile{
 	Oracles: []Oracle{{Name: "worktree-report", After: oracleWorktreeReport}},
 })
 
-var worktreeWeights = Weights{"write-new": 18, "modify": 14, "rewrite-same": 8, "touch": 8, "remove-file": 10, "rmdir": 5, "recreate": 4,
+var worktreeWeights = Weights{"dir-at-unstaged-file": 3, "file-at-unstaged-dir": 3, "dir2file": 4, "file2dir": 4, "ignore-more": 3, "write-new": 18, "modify": 14, "rewrite-same": 8, "touch": 8, "remove-file": 10, "rmdir": 5, "recreate": 4,
 	"add": 16, "rm": 4, "commit": 6, "restore": 3, "reset": 3, "revert": 6, "recreate-unstaged": 5}
 
 var _ = sbx.Diff
